@@ -1,6 +1,7 @@
-(* driver.ml — oracle for the acceptor (job_accept).  Usage: oracle <src|ref>
+(* driver.ml — oracle for the acceptor (job_accept).  Usage: oracle <src|ref|check>
+   (check: stdin  C <out> <log>  ->  C clauses=....  = JobModel.clauses on the given log)
    stdin : J <sigs|-> <ret>[/<sigs>] ...        (same lines as harness/job_harness.c)
-   stdout: R out=<return|fatal|stuck|spin> log=<event>,... clauses=<handoff><backlog><stop><sighup>  (1 = holds) *)
+   stdout: R out=<return|fatal|stuck|spin> log=<event>,... clauses=<handoff><backlog><stop><sighup><progress>  (1 = holds) *)
 open Model
 open Conv
 
@@ -61,12 +62,57 @@ let line prog l =
        | None -> print_string "? bad script\n"
        | Some cs ->
            let (k, evs) = run prog (if isigs = "-" then [] else sigs_of isigs) cs no_reads in
-           let (((a, b), c), d) = clauses evs k in
+           let ((((a, b), c), d), e) = clauses evs k in
            let bit x = if x then "1" else "0" in
-           Printf.printf "R out=%s log=%s clauses=%s%s%s%s\n" (outname k)
-             (if evs = [] then "-" else String.concat "," (List.map show evs)) (bit a) (bit b) (bit c) (bit d))
+           Printf.printf "R out=%s log=%s clauses=%s%s%s%s%s\n" (outname k)
+             (if evs = [] then "-" else String.concat "," (List.map show evs)) (bit a) (bit b) (bit c) (bit d) (bit e))
   | _ -> print_string "? bad script\n"
 
+(* ---- the monitors on a log that is given (the implementation's) -------------------------- *)
+let all_errnos = [E0; EINTR; ECONNABORTED; EMFILE; ENFILE; ENOBUFS; ENOMEM; EAGAIN; EBADF; EINVAL; EPERM; ENOTSOCK; EPROTO]
+let err_of_name n = match List.filter (fun e -> errname e = n) all_errnos with e :: _ -> e | [] -> E0
+let zs s = z_of_int (int_of_string s)
+let isok r = (r = "ok")
+let parse_ev s : event =
+  match split_on ':' s with
+  | ["I"; r] -> EInit (isok r)
+  | ["A"; x] when String.length x > 1 && x.[0] = 'c' -> EAcceptConn (zs (String.sub x 1 (String.length x - 1)))
+  | ["A"; x] when String.length x > 1 && x.[0] = 'e' -> EAcceptErr (err_of_name (String.sub x 1 (String.length x - 1)))
+  | ["T"; t] -> ETime (zs t)
+  | ["L"; p; t; a] ->
+      let pr = (match p with "err" -> PErr | "warning" -> PWarning | "notice" -> PNotice | "info" -> PInfo | _ -> PDebug) in
+      let tg = (match t with "created" -> TCreated | "reconfig" -> TReconfig | "acceptfail" -> TAcceptFail
+                | "nonblock" -> TNonblock | "create" -> TCreate | "bind" -> TBind | "queue" -> TQueue
+                | "exiting" -> TExiting | _ -> TOther) in
+      ELog (pr, tg, (match tg with TAcceptFail -> errno_code (err_of_name a) | _ -> zs a))
+  | ["W"] -> EWait
+  | ["Q"; fd; r] -> EQueue (zs fd, isok r)
+  | ["C"; fd] -> EClose (zs fd)
+  | ["N"; fd; r] -> ENonblock (zs fd, isok r)
+  | ["M"; r] -> ECreate (isok r)
+  | ["B"; fd; r] -> EBind (zs fd, isok r)
+  | ["D"; fd] -> EDestroy (zs fd)
+  | ["G"] -> EGids
+  | ["X"; t] -> EFatal (match t with "init" -> FInit | "time" -> FTime | "accept" -> FAccept | _ -> FOther)
+  | ["F"; d] -> EFini (d = "1")
+  | ["S"; n] -> ESig (match n with "1" -> SIGHUP | "2" -> SIGINT | _ -> SIGTERM)
+  | _ -> failwith ("event " ^ s)
+
+let check_line l =
+  match List.filter (fun t -> t <> "") (split_on ' ' l) with
+  | ["C"; out; log] ->
+      (try
+        let evs = if log = "-" then [] else List.map parse_ev (split_on ',' log) in
+        let k = (match out with "return" -> KReturn | "fatal" -> KFatal | "stuck" -> KStuck | _ -> KSpin) in
+        let ((((a, b), c), d), e) = clauses evs k in
+        let bit x = if x then "1" else "0" in
+        Printf.printf "C clauses=%s%s%s%s%s\n" (bit a) (bit b) (bit c) (bit d) (bit e)
+      with _ -> print_string "? bad log\n")
+  | _ -> print_string "? bad log\n"
+
 let () =
+  if Array.length Sys.argv > 1 && Sys.argv.(1) = "check" then
+    (try while true do check_line (input_line stdin) done with End_of_file -> ())
+  else
   let prog = if Array.length Sys.argv > 1 && Sys.argv.(1) = "ref" then job_ref else src_job in
   try while true do line prog (input_line stdin) done with End_of_file -> ()
